@@ -105,6 +105,7 @@ def derivative_search(ctx, budget, honesty):
     from numdifftools.step_generators import MinStepGenerator, MaxStepGenerator
     rng = ctx.rng
     worst = {}
+    skipped_nonfinite = [0]
     # deterministic probe of the recorded finding (multicomplex second derivative through Bicomplex.arctan/arcsin/arccos)
     with warnings.catch_warnings():
         warnings.simplefilter('ignore')
@@ -152,13 +153,28 @@ def derivative_search(ctx, budget, honesty):
         key = (m, n, order, str(tree), x)
         S = local_scale(d, max(n, 0), n + 4)
         rep = dict(program=str(tree), x=x, method=m, n=n, order=order, step=type(kw.get('step')).__name__, exact=d[n] if n < len(d) else None)
+        nonfinite = [False]
+
+        def f_obs(t, tree=tree, nonfinite=nonfinite):
+            # the program itself, observed: did it return a non-finite value at a point the method evaluated?
+            r = tree(t)
+            z1 = getattr(r, 'z1', r)
+            if not np.all(np.isfinite(np.asarray(z1))):
+                nonfinite[0] = True
+            return r
         try:
             with warnings.catch_warnings():
                 warnings.simplefilter('ignore')
-                val, info = nd.Derivative(tree, **kw)(xs)
+                val, info = nd.Derivative(f_obs, **kw)(xs)
         except Exception as ex:
             ctx.tried(key)
             ctx.violation('Derivative raised %r' % ex, **rep)
+            continue
+        if nonfinite[0] and m in ('complex', 'multicomplex'):
+            # the program overflows (or leaves its domain) at the complex points of the stencil, e.g. sin(x**4) at x = 27 has
+            # |sin| ~ exp(4 x^3 h): the function cannot be evaluated where the method needs it — outside the property's domain
+            ctx.tried(None)
+            skipped_nonfinite[0] += 1
             continue
         ctx.tried(key)
         v = float(np.ravel(val)[pick])
@@ -211,6 +227,7 @@ def derivative_search(ctx, budget, honesty):
         stationary_single_estimate(ctx, max(20, budget // 8))
     else:
         shared_generator_probe(ctx, max(6, budget // 60))
+    ctx.notes.append('%d programs skipped: not finite at the complex points of the stencil' % skipped_nonfinite[0])
     ctx.notes.append('worst ratio / envelope per (method, n) on this run: %s'
                      % {('%s,%d' % k): float('%.2g' % v) for k, v in sorted(worst.items())})
 
